@@ -91,10 +91,10 @@ Snake(p) == IF p \in PoolNames THEN NameTable[NameRow(p)].s ELSE p
 
 \* Go's byte order on the Go names used for sorting (sort.Slice by Field.Name); "active" is the
 \* placeholder.  Upper-case letters sort before lower-case ones.
-GoNameOrder == << "AB", "Alpha", "Bad", "BranchA", "BranchB", "BranchC", "BranchD", "BranchE", "Cust", "Custs",
-  "Dict", "Dur", "Durs", "Empty", "Extra", "Fa", "Fb", "Fc", "Fd", "Fe", "Ff", "Fg", "Fh", "Fi", "Fj", "Fk", "Fl", "Flag", "Flt", "Fm", "Fn", "Fo", "FooBar", "Foobar", "Grp", "Grp2", "Inner", "Items", "Kind",
+GoNameOrder == << "AB", "Alpha", "Bad", "Bar", "BranchA", "BranchB", "BranchC", "BranchD", "BranchE", "Cust", "Custs",
+  "Dict", "Dur", "Durs", "Empty", "Extra", "Fa", "Fb", "Fc", "Fd", "Fe", "Ff", "Fg", "Fh", "Fi", "Fj", "Fk", "Fl", "Flag", "Flt", "Fm", "Fn", "Fo", "Foo", "FooBar", "Foobar", "Grp", "Grp2", "Inner", "Items", "Key", "Kind",
   "Leaf", "LowerGrp", "LowerNum", "MaxTTL", "Mid", "Nothing", "Num", "Other", "Outer", "Poison", "Raw", "Root", "Str",
-  "Sub", "Sub2", "Subs", "Tags", "Third", "When", "Whens", "XYZ", "Zed", "active" >>
+  "Sub", "Sub2", "Subs", "Tags", "Third", "Value", "When", "Whens", "XYZ", "Zed", "active" >>
 
 Rank(g) == IF \E i \in DOMAIN GoNameOrder : GoNameOrder[i] = g
            THEN CHOOSE i \in DOMAIN GoNameOrder : GoNameOrder[i] = g
@@ -109,7 +109,10 @@ JsonTagTable == <<
   [tag |-> "jname",            first |-> "jname"],
   [tag |-> "jname,omitempty",  first |-> "jname"],
   [tag |-> "j_two,omitempty",  first |-> "j_two"],
-  [tag |-> "j_three",          first |-> "j_three"] >>
+  [tag |-> "j_three",          first |-> "j_three"],
+  \* names spelled with dashes (legal in a json tag and in name_overrides; kept as they are)
+  [tag |-> "max-age",              first |-> "max-age"],
+  [tag |-> "burst-size,omitempty", first |-> "burst-size"] >>
 
 JsonFirst(tag) == LET R == {i \in DOMAIN JsonTagTable : JsonTagTable[i].tag = tag}
                   IN IF R = {} THEN tag ELSE JsonTagTable[CHOOSE i \in R : TRUE].first
